@@ -58,6 +58,7 @@ Variable decode : list byte -> option req.
 Variable K : cfg.
 Notation step := (Server.step decomp decode K).
 Notation reach := (Server.reach decomp decode K).
+Notation reach_by := (Server.reach_by decomp decode K).
 Notation next_input := (Server.next_input decomp decode).
 Notation work := (Server.work decomp decode K).
 Notation serve_step := (Server.serve_step decomp decode K).
@@ -328,7 +329,9 @@ Definition conn_ok (cl fm : list cid) (bz : option cid) (bl : list cid) (x : cid
   /\ (stg k = Pooled -> mem x fm = true /\ authd k = true)
   /\ (mem x fm = true -> stg k = Pooled)
   /\ (mem x cl = true -> stg k = Own \/ stg k = Authing \/ (kind K = Pool /\ stg k = Finished /\ pool_fail_discards (fx K) = false))
-  /\ (In x bl -> stg k = Backlog).
+  /\ (In x bl -> stg k = Backlog)
+  /\ (stg k = Finished -> authd k = true -> cclosed k = true)
+  /\ (stg k = Fresh \/ stg k = Backlog \/ stg k = Authing -> authd k = false).
 Definition Inv2 (s : st) : Prop :=
   (forall x, conn_ok (clients s) (fdmap s) (busy s) (backlog s) x (conns s x)) /\ NoDup (backlog s).
 
@@ -349,7 +352,7 @@ Proof.
   eapply conn_ok_core; [exact Hc|apply H].
 Qed.
 
-Ltac ok_destruct H := destruct H as (Ok1 & Ok2 & Ok3 & Ok4 & Ok5 & Ok6 & Ok7 & Ok8).
+Ltac ok_destruct H := destruct H as (Ok1 & Ok2 & Ok3 & Ok4 & Ok5 & Ok6 & Ok7 & Ok8 & Ok9 & Ok10).
 
 Lemma conn_ok_close cl fm bz bl x k : conn_ok cl fm bz bl x k -> conn_ok cl fm bz bl x (close_conn k).
 Proof.
@@ -361,20 +364,21 @@ Qed.
 
 Ltac ok_solve := unfold conn_ok in *; cbn in *; rewrite ?mem_rm_same in *; intuition (try congruence; try discriminate).
 
-Lemma conn_ok_authd cl fm bz bl x k : conn_ok cl fm bz bl x k -> conn_ok cl fm bz bl x (k_authd k).
-Proof. intros H. ok_solve. Qed.
+Lemma conn_ok_authd cl fm bz bl x k : stg k = Own -> conn_ok cl fm bz bl x k -> conn_ok cl fm bz bl x (k_authd k).
+Proof. intros Hs H. ok_solve. Qed.
 
 (* the worker's finally on its own connection *)
+Definition fin_ok (k : conn) : Prop := authd k = true -> cclosed k = true.
 Lemma conn_ok_finish cl fm bz bl c k :
-  (stg k = Own \/ stg k = Authing) -> conn_ok cl fm bz bl c k -> conn_ok (rm c cl) fm bz bl c (k_stage (k_shut k) Finished).
-Proof. intros Hs H. ok_solve. Qed.
+  (stg k = Own \/ stg k = Authing) -> fin_ok k -> conn_ok cl fm bz bl c k -> conn_ok (rm c cl) fm bz bl c (k_stage (k_shut k) Finished).
+Proof. intros Hs Hf H. unfold fin_ok in Hf. ok_solve. Qed.
 Lemma conn_ok_rm_other cl fm bz bl c x k : x <> c -> conn_ok cl fm bz bl x k -> conn_ok (rm c cl) fm bz bl x k.
 Proof. intros N. unfold conn_ok. now rewrite mem_rm_other. Qed.
 
-Lemma inv2_fo_core s c : (stg (conns s c) = Own \/ stg (conns s c) = Authing) -> Inv2 s -> Inv2 (fo_core c s).
+Lemma inv2_fo_core s c : (stg (conns s c) = Own \/ stg (conns s c) = Authing) -> fin_ok (conns s c) -> Inv2 s -> Inv2 (fo_core c s).
 Proof.
-  intros Hs [H N]. split; [|exact N]. intros x. simp_state. conn_at x c.
-  - apply conn_ok_finish; [exact Hs|apply H].
+  intros Hs Hf [H N]. split; [|exact N]. intros x. simp_state. conn_at x c.
+  - apply conn_ok_finish; [exact Hs|exact Hf|apply H].
   - apply conn_ok_rm_other; [assumption|apply H].
 Qed.
 
@@ -405,9 +409,9 @@ Qed.
 Lemma inv2_no_authing s : Inv2 s -> kind K <> Pool -> forall x, stg (conns s x) <> Authing.
 Proof. intros [H _] Nk x E. specialize (H x). unfold conn_ok in H. tauto. Qed.
 
-Lemma inv2_finish_own s c : stg (conns s c) = Own -> Inv2 s -> Inv2 (finish_own K c s).
+Lemma inv2_finish_own s c : stg (conns s c) = Own -> fin_ok (conns s c) -> Inv2 s -> Inv2 (finish_own K c s).
 Proof.
-  intros Hs I. rewrite finish_own_eq.
+  intros Hs Hf I. rewrite finish_own_eq.
   assert (I1 : Inv2 (fo_core c s)) by (apply inv2_fo_core; auto).
   destruct (kind K) eqn:Ek; try exact I1.
   apply inv2_server_close, inv2_busy_none; [|exact I1].
@@ -418,7 +422,10 @@ Lemma conn_ok_fm_other cl fm bz bl c x k : x <> c -> conn_ok cl fm bz bl x k -> 
 Proof. intros N. unfold conn_ok. now rewrite mem_rm_other. Qed.
 Lemma conn_ok_dropped cl fm bz bl c k : mem c fm = true -> conn_ok cl fm bz bl c k -> conn_ok cl (rm c fm) bz bl c (k_stage (close_conn k) Finished).
 Proof.
-  intros M H. apply conn_ok_close in H. revert H. generalize (close_conn k). intros k' H. ok_solve.
+  intros M H. apply conn_ok_close in H.
+  assert (F : authd (close_conn k) = true -> cclosed (close_conn k) = true).
+  { rewrite close_conn_authd, close_conn_cclosed. intros ->. apply orb_true_r. }
+  revert H F. generalize (close_conn k). intros k' H F. ok_solve.
 Qed.
 Lemma inv2_drop s c : Inv2 s -> Inv2 (drop c s).
 Proof.
@@ -452,7 +459,7 @@ Proof.
   intros Hb [H N]. apply andb_prop in Hb. destruct Hb as [_ Hf].
   assert (Hs : stg (conns s c) = Fresh) by (destruct (stg (conns s c)); try discriminate; reflexivity).
   assert (Nin : ~ In c (backlog s)).
-  { intros Hi. specialize (H c). unfold conn_ok in H. destruct H as (_ & _ & _ & _ & _ & _ & _ & H8). specialize (H8 Hi). congruence. }
+  { intros Hi. specialize (H c). unfold conn_ok in H. destruct H as (_ & _ & _ & _ & _ & _ & _ & H8 & _). specialize (H8 Hi). congruence. }
   split.
   - intros x. simp_state. conn_at x c.
     + specialize (H c). unfold conn_ok in *. cbn. rewrite Hs in H. intuition (try congruence; try discriminate).
@@ -526,14 +533,23 @@ Proof.
     intuition (try congruence; try discriminate; auto).
 Qed.
 
-Lemma inv2_authd s c : Inv2 s -> Inv2 (set_conn s c (k_authd (conns s c))).
+Lemma inv2_authd s c : stg (conns s c) = Own -> Inv2 s -> Inv2 (set_conn s c (k_authd (conns s c))).
 Proof.
-  intros [H N]. split; [|exact N]. intros x. simp_state. conn_at x c; [apply conn_ok_authd|]; apply H.
+  intros Hs [H N]. split; [|exact N]. intros x. simp_state. conn_at x c; [apply conn_ok_authd; [exact Hs|]|]; apply H.
 Qed.
 Lemma inv2_close_at s c k0 : same_core (conns s c) k0 -> Inv2 s -> Inv2 (set_conn s c (close_conn k0)).
 Proof.
   intros Hc [H N]. split; [|exact N]. intros x. simp_state. conn_at x c; [|apply H].
   apply conn_ok_close. eapply conn_ok_core; [exact Hc|apply H].
+Qed.
+
+Lemma fin_ok_close k : fin_ok (close_conn k).
+Proof. unfold fin_ok. rewrite close_conn_authd, close_conn_cclosed. intros ->. apply orb_true_r. Qed.
+Lemma fin_ok_unauth k : negb (authd k) = true -> fin_ok k.
+Proof. unfold fin_ok. destruct (authd k); [discriminate|discriminate]. Qed.
+Lemma fin_ok_served_close s c q rest : is_close q = true -> fin_ok (served_conn s c q rest).
+Proof.
+  intros Hq. unfold served_conn. destruct (serve_req K c _ _ q) as [[v' tb'] r]. rewrite Hq. apply fin_ok_close.
 Qed.
 
 Lemma inv2_step s e s' : Inv2 s -> step e s = Some s' -> Inv2 s'.
@@ -548,6 +564,8 @@ Proof.
   all: try (apply inv2_authd; assumption).
   all: try (apply inv2_finish_own;
             [simp_state; rewrite ?upd_same, ?serve_on_same, ?served_conn_stg, ?close_conn_stg; cbn; assumption
+            |simp_state; rewrite ?upd_same, ?serve_on_same;
+             first [apply fin_ok_close | apply fin_ok_unauth; assumption | apply fin_ok_served_close; assumption]
             |first [assumption | apply inv2_close_at; [repeat split|assumption] | apply inv2_serve_on; assumption]]).
   all: try (apply inv2_drop).
   all: try (apply inv2_serve_on; assumption).
@@ -555,7 +573,6 @@ Proof.
   all: try (eapply inv2_tables; [..|first [eassumption | apply inv2_serve_on; eassumption | apply inv2_local; [|eassumption]; repeat split]];
             simp_state; reflexivity).
 Qed.
-
 
 (* ---- the thread pool: every registered descriptor is in exactly one place ---- *)
 Definition cnt (x : cid) (l : list cid) : nat := count_occ Nat.eq_dec l x.
@@ -715,4 +732,17 @@ Proof.
   all: try (eapply inv3_tables; [..|eassumption]; simp_state; reflexivity).
 Qed.
 
+
+(* ---- all invariants hold in every reachable state ---- *)
+Definition Inv (s : st) : Prop := Inv1 s /\ Inv2 s /\ Inv3 s.
+Lemma inv_init : Inv (init K).
+Proof. split; [apply inv1_init|split; [apply inv2_init|apply inv3_init]]. Qed.
+Lemma inv_step s e s' : Inv s -> step e s = Some s' -> Inv s'.
+Proof.
+  intros (I1 & I2 & I3) H. split; [eapply inv1_step; eassumption|split; [eapply inv2_step; eassumption|eapply inv3_step; eassumption]].
+Qed.
+Lemma inv_reach_by l s : reach_by l s -> Inv s.
+Proof. induction 1; [apply inv_init|eapply inv_step; eassumption]. Qed.
+Lemma inv_reach s : reach s -> Inv s.
+Proof. intros [l H]. eapply inv_reach_by, H. Qed.
 End P.
